@@ -106,7 +106,7 @@ def run(ctx):
         "count, count_unique, clone list order) must equal the state of the executable specification after the same history. "
         "non-trivial/distinct as C01"
     )
-    ctx.budget_s = 900 if ctx.thorough else 100
+    ctx.budget_s = ctx.budget(900, 100)
     n = 4 if ctx.thorough else 3
     for typed in (False, True):
         _hist.exhaustive_single_ops(ctx, out, judge, max_nodes=n if not typed else n - 1, alphabet=[0, 1, 6], typed=typed,
